@@ -89,19 +89,12 @@ func r151(c *Ctx) {
 func r152(c *Ctx, rule string) {
 	c.floor(rule, 12)
 	hpe := c.method("Target", "handleProxyError")
-	preds := map[string]*ssa.Function{
-		"too-large": c.method("Target", "isRequestEntityTooLarge"), "timeout": c.method("Target", "isGatewayTimeout"),
-		"client-cancel": c.method("Target", "isClientCancellation"), "draining": c.method("Target", "isDraining"),
-	}
+	// the four classifying tests, found by what they test (the predicate helpers of the reference tree - isDraining & co -
+	// are de-anchored: always expanded into handleProxyError)
 	want := map[string]int64{"too-large": 413, "timeout": 504, "client-cancel": 499, "draining": 504, "default": 502}
-	predCalls := map[string]*ssa.Call{}
-	for k, f := range preds {
-		for _, cs := range callsTo(hpe, f) {
-			if call, ok := cs.instr.(*ssa.Call); ok && call.Call.Args[1] == ssa.Value(hpe.Params[3]) {
-				predCalls[k] = call
-			}
-		}
-		c.ob(rule, "handleProxyError/tests-"+k, hpe.Pos(), predCalls[k] != nil, true, "the error passed to the handler must be classified with "+f.Name())
+	predCalls := c.proxyErrorPredicates(hpe)
+	for _, k := range []string{"too-large", "timeout", "client-cancel", "draining"} {
+		c.ob(rule, "handleProxyError/tests-"+k, hpe.Pos(), predCalls[k] != nil, true, "the error passed to the handler must be classified ("+k+")")
 	}
 	seen := map[string]bool{}
 	for _, s := range c.errorSites() {
@@ -113,6 +106,9 @@ func r152(c *Ctx, rule string) {
 		falses := 0
 		for k, call := range predCalls {
 			t, f := boolFacts(s.instr, sameAs(call))
+			if call == nil {
+				continue
+			}
 			if t {
 				cause = k
 			}
@@ -155,56 +151,94 @@ func r152(c *Ctx, rule string) {
 	}
 	// order: timeout classified before draining / default; too-large first irrelevant. Require timeout test dominates the draining test
 	if predCalls["timeout"] != nil && predCalls["draining"] != nil {
-		c.ob(rule, "handleProxyError/timeout-before-draining", hpe.Pos(), dominates(predCalls["timeout"], predCalls["draining"]), true, "")
+		ti, ok1 := predCalls["timeout"].(ssa.Instruction)
+		di, ok2 := predCalls["draining"].(ssa.Instruction)
+		c.ob(rule, "handleProxyError/timeout-before-draining", hpe.Pos(), ok1 && ok2 && dominates(ti, di), true, "")
 	}
-	// predicate bodies
-	checkIs := func(name string, fn *ssa.Function, target string) {
-		ok := false
-		for _, cs := range callsToName(fn, "errors.Is") {
-			a := cs.common().Args[1]
-			if u, isU := a.(*ssa.UnOp); isU {
-				if g, isG := u.X.(*ssa.Global); isG && g.Pkg.Pkg.Path()+"."+g.Name() == target && cs.common().Args[0] == ssa.Value(fn.Params[1]) {
-					for _, ret := range normalReturns(fn) {
-						if retVal(ret, 0) == cs.instr.(ssa.Value) {
-							ok = true
+	// what each test tests is part of how it was found (proxyErrorPredicates): errors.Is(err, context.Canceled),
+	// errors.Is(err, ErrorDraining), errors.As(err, *http.MaxBytesError), errors.As(err, &net.Error) && .Timeout()
+	for _, k := range []string{"isClientCancellation/is-errors.Is(err, context.Canceled)", "isDraining/is-errors.Is(err, ErrorDraining)", "isGatewayTimeout/net.Error.Timeout()", "isRequestEntityTooLarge/*http.MaxBytesError"} {
+		key := map[string]string{"isClientCancellation/is-errors.Is(err, context.Canceled)": "client-cancel", "isDraining/is-errors.Is(err, ErrorDraining)": "draining", "isGatewayTimeout/net.Error.Timeout()": "timeout", "isRequestEntityTooLarge/*http.MaxBytesError": "too-large"}[k]
+		c.ob(rule, k, hpe.Pos(), predCalls[key] != nil, true, "")
+	}
+}
+
+// proxyErrorPredicates: the values handleProxyError branches on to classify its error argument, keyed by cause. A
+// value counts when everything it can be other than constant false is the classifying call itself.
+func (c *Ctx) proxyErrorPredicates(hpe *ssa.Function) map[string]ssa.Value {
+	errParam := ssa.Value(hpe.Params[3])
+	isErr := func(v ssa.Value) bool { return resolve(v) == errParam }
+	classify := func(v ssa.Value) string {
+		call, ok := v.(*ssa.Call)
+		if !ok {
+			return ""
+		}
+		switch {
+		case calleeName(call.Common()) == "errors.Is" && isErr(call.Call.Args[0]):
+			if u, isU := call.Call.Args[1].(*ssa.UnOp); isU {
+				if g, isG := u.X.(*ssa.Global); isG {
+					switch g.Pkg.Pkg.Path() + "." + g.Name() {
+					case "context.Canceled":
+						return "client-cancel"
+					case modulePath + "/internal/server.ErrorDraining":
+						return "draining"
+					}
+				}
+			}
+		case calleeName(call.Common()) == "errors.As" && isErr(call.Call.Args[0]):
+			if mi, ok := call.Call.Args[1].(*ssa.MakeInterface); ok && strings.Contains(typeString(mi.X.Type()), "net/http.MaxBytesError") {
+				return "too-large"
+			}
+		case call.Call.IsInvoke() && call.Call.Method.Name() == "Timeout" && typeString(call.Call.Value.Type()) == "net.Error":
+			// the net.Error examined is the one errors.As(err, &netErr) filled in, on its true branch
+			if u, isU := call.Call.Value.(*ssa.UnOp); isU {
+				for _, cs := range callsToName(hpe, "errors.As") {
+					as := cs.instr.(*ssa.Call)
+					if !isErr(as.Call.Args[0]) {
+						continue
+					}
+					if mi, ok := as.Call.Args[1].(*ssa.MakeInterface); ok && mi.X == u.X {
+						if t, _ := boolFacts(call, sameAs(as)); t {
+							return "timeout"
 						}
 					}
 				}
 			}
 		}
-		c.ob(rule, name+"/is-errors.Is(err, "+target+")", fn.Pos(), ok, true, "")
+		return ""
 	}
-	checkIs("isClientCancellation", preds["client-cancel"], "context.Canceled")
-	checkIs("isDraining", preds["draining"], modulePath+"/internal/server.ErrorDraining")
-	okT := false
-	for _, cs := range callsToName(preds["timeout"], "errors.As") {
-		if cs.common().Args[0] == ssa.Value(preds["timeout"].Params[1]) {
-			for _, x := range callsIn(preds["timeout"]) {
-				if x.common().IsInvoke() && x.common().Method.Name() == "Timeout" && typeString(x.common().Value.Type()) == "net.Error" {
-					okT = true
-					// and every non-false result is exactly that call's result
-					for _, ret := range normalReturns(preds["timeout"]) {
-						for _, src := range phiSources(retVal(ret, 0)) {
-							if b, isC := constBool(src); isC && !b {
-								continue
-							}
-							if src != x.instr.(ssa.Value) {
-								okT = false
-							}
-						}
-					}
-				}
+	out := map[string]ssa.Value{}
+	for _, b := range hpe.Blocks {
+		if len(b.Instrs) == 0 {
+			continue
+		}
+		ifi, ok := b.Instrs[len(b.Instrs)-1].(*ssa.If)
+		if !ok {
+			continue
+		}
+		v := ifi.Cond
+		for {
+			u, isU := v.(*ssa.UnOp)
+			if !isU || u.Op != token.NOT {
+				break
 			}
+			v = u.X
+		}
+		var nonFalse []ssa.Value
+		for _, src := range phiSources(v) {
+			if bl, isC := constBool(src); isC && !bl {
+				continue
+			}
+			nonFalse = append(nonFalse, src)
+		}
+		if len(nonFalse) != 1 {
+			continue
+		}
+		if k := classify(nonFalse[0]); k != "" {
+			out[k] = v
 		}
 	}
-	c.ob(rule, "isGatewayTimeout/net.Error.Timeout()", preds["timeout"].Pos(), okT, true, "")
-	okL := false
-	for _, cs := range callsToName(preds["too-large"], "errors.As") {
-		if mi, ok := cs.common().Args[1].(*ssa.MakeInterface); ok && strings.Contains(typeString(mi.X.Type()), "net/http.MaxBytesError") {
-			okL = true
-		}
-	}
-	c.ob(rule, "isRequestEntityTooLarge/*http.MaxBytesError", preds["too-large"].Pos(), okL, true, "")
+	return out
 }
 
 func r153(c *Ctx) {
